@@ -269,3 +269,17 @@ W('C13-W-session-not-wired', 'C13', 'C13.e', ('glue/core/session.py', "        s
 W('C13-W-app-undo-calls-redo', 'C13', 'C13.e', ('glue/core/application_base.py', "            self._cmds.undo()\n", "            self._cmds.redo()\n"))
 W('C17-W-precedence-swapped', 'C17', 'C17.e', (DATA, "for cid_set in (self.main_components, self.derived_components, self.coordinate_components,", "for cid_set in (self.derived_components, self.main_components, self.coordinate_components,"))
 T('C17-T-ambiguous-ge-2', 'C17', (DATA, "            elif len(result) > 1:\n                return None\n        return None", "            elif len(result) >= 2:\n                return None\n        return None"))
+
+# ------------------------------------------------------------------ C19
+EXP_FITS = 'glue/core/data_exporters/gridded_fits.py'
+EXP_H5 = 'glue/core/data_exporters/hdf5.py'
+EXP_TAB = 'glue/core/data_exporters/astropy_table.py'
+HELP = 'glue/core/data_factories/helpers.py'
+W('C19-W-fits-masks-in-place', 'C19', 'C19.b', (EXP_FITS, "            # We need to copy the values so that we can mask them\n            values = values.copy()\n", ""))
+W('C19-W-hdf5-main-only', 'C19', 'C19.a', (EXP_H5, "    for cid in data.main_components + data.derived_components:", "    for cid in data.main_components:"))
+W('C19-W-table-mask-not-applied', 'C19', 'C19.b', (EXP_TAB, "        if mask is not None:\n            values = values[mask]\n", ""))
+W('C19-W-hdf5-mask-after-data', 'C19', 'C19.b', (EXP_H5, "        mask = data.to_mask()\n        data = data.data", "        data = data.data\n        mask = data.to_mask()"))
+W('C19-W-reload-drops-kwargs', 'C19', 'C19.c', (HELP, "            d = load_data(self.path, factory=self.factory, **self.kwargs)", "            d = load_data(self.path, factory=self.factory)"))
+W('C19-W-loadlog-path-renamed', 'C19', 'C19.c', (HELP, "        return dict(path=path,\n                    factory=context.do(self.factory),", "        return dict(filename=path,\n                    factory=context.do(self.factory),"))
+W('C19-W-hdf5-copy-dropped', 'C19', 'C19.b', (EXP_H5, "            values = data[cid].copy()", "            values = data[cid]"))
+T('C19-T-table-local-rename', 'C19', (EXP_TAB, "        values = data[cid]\n\n        if mask is not None:\n            values = values[mask]\n\n        table[cid.label] = values", "        column = data[cid]\n\n        if mask is not None:\n            column = column[mask]\n\n        table[cid.label] = column"))
